@@ -134,7 +134,9 @@ var anchorPreds = map[string]anchorPred{
 		}))
 	},
 	"client/setec:(*Store).lookupWatcher": func(p *eng.Prog, f *ssa.Function) bool {
-		return recvIs(f, setecPkg, "Store") && f.Signature.Results().Len() == 2 && resultIs(f, 0, func(t types.Type) bool { return eng.IsNamed(t, setecPkg, "watcher") || eng.IsNamed(t, setecPkg, "Watcher") }) && !(f.Object() != nil && f.Object().Exported())
+		return recvIs(f, setecPkg, "Store") && f.Signature.Results().Len() == 2 && resultIs(f, 0, func(t types.Type) bool {
+			return eng.IsNamed(t, setecPkg, "watcher") || eng.IsNamed(t, setecPkg, "Watcher")
+		}) && !(f.Object() != nil && f.Object().Exported())
 	},
 	"client/setec:(*cachedSecret).lastAccessTime": func(p *eng.Prog, f *ssa.Function) bool {
 		return recvIs(f, setecPkg, "cachedSecret") && f.Signature.Results().Len() == 1 && resultIs(f, 0, func(t types.Type) bool { return eng.IsNamed(t, "time", "Time") })
@@ -181,15 +183,41 @@ var anchorPreds = map[string]anchorPred{
 		return recvIs(f, "server", "Server") && f.Signature.Results().Len() == 2 && resultIs(f, 0, func(t types.Type) bool { return eng.IsNamed(t, "db", "Caller") }) && resultIs(f, 1, eng.IsErrorType)
 	},
 	"server:(*Server).doBackup": func(p *eng.Prog, f *ssa.Function) bool {
-		return recvIs(f, "server", "Server") && hasInstr(f, false, callsWhere(func(cc *ssa.CallCommon) bool {
-			n := ""
-			if cc.IsInvoke() {
-				n = cc.Method.Name()
-			} else if sc := cc.StaticCallee(); sc != nil {
-				n = sc.Name()
+		// the method that reads the database file and uploads it (either step
+		// possibly in a helper); of nested candidates the innermost one
+		both := func(g *ssa.Function) bool {
+			read, put := false, false
+			eng.InstrsDeep(g, func(_ *ssa.Function, in ssa.Instruction) {
+				ci, ok := in.(ssa.CallInstruction)
+				if !ok {
+					return
+				}
+				cc := ci.Common()
+				if eng.CalleeIs(cc, "os", "ReadFile") {
+					read = true
+				}
+				n := ""
+				if cc.IsInvoke() {
+					n = cc.Method.Name()
+				} else if sc := cc.StaticCallee(); sc != nil {
+					n = sc.Name()
+				}
+				if n == "PutObject" {
+					put = true
+				}
+			})
+			return read && put
+		}
+		if !recvIs(f, "server", "Server") || !both(f) {
+			return false
+		}
+		inner := false
+		eng.InstrsDeep(f, func(g *ssa.Function, _ ssa.Instruction) {
+			if g != f && g.Parent() == nil && both(g) {
+				inner = true
 			}
-			return n == "PutObject"
-		}))
+		})
+		return !inner
 	},
 	"server:serveJSON": func(p *eng.Prog, f *ssa.Function) bool {
 		// the generic front door: takes the handler as a function value and json-decodes the body
@@ -292,7 +320,6 @@ func AnchorSelfCheck(p *eng.Prog) []string {
 	}
 	return out
 }
-
 
 // isActiveSetValue: v is the store's map of entries: a load of the guarded
 // group's map to *cachedSecret, or a parameter of that map type whose
